@@ -613,7 +613,7 @@ def product_shard(shard, maxlen):
 def main(tier, seed):
     res = runner.CheckResult(ID, tier, seed)
     res.rule = RULE
-    shards = runner.run_shards(shard, seed=seed, examples=150 if tier == "quick" else 2000, engines=["real", "wsgi"])
+    shards = runner.run_shards(shard, seed=seed, examples=150 if tier == "quick" else 800, engines=["real", "wsgi"])
     stats = collections.Counter()
     if tier == "thorough":
         shards += runner.run_shards(product_shard, maxlen=3)
